@@ -83,17 +83,27 @@ Theorem C13_changed : forall sl validated mux_ok c0 ls s,
                  (forall a sid', net_get (net s) a = Some (Own sid') -> sid' = sid).
 Proof. exact running_serves. Qed.
 
-(* Failures are visible: every way a Reload gives up the mutex is either a failure - callback error or
-   nil, r.server nil, a failed Shutdown of the old server, a new server that did not become ready
-   (unbindable address, cancelled context), a configuration NewConfig rejects - and then the state is
-   Error at that very step, or the final Transition(Running).  No hypothesis on the state: this holds
-   with foreign binders too. *)
+(* Failures are visible: every way a Reload gives up the mutex is either a failure - callback error (one that does
+   NOT wrap ErrOldConfig) or nil, r.server nil, a failed Shutdown of the old server, a new server that did not
+   become ready (unbindable address, cancelled context), a configuration NewConfig rejects - and then the state is
+   Error at that very step, or the final Transition(Running) of the unchanged / completed path.
+   Hypotheses: s holds the mutex for Reload caller i, s' has released it, s -l-> s'.  None on reachability or the
+   environment: this holds with foreign binders too.
+   THE CODE'S EXCEPTION, followed by the model (audit L7(a)): a callback error that wraps the exported sentinel
+   ErrOldConfig is taken for "unchanged" (errors.Is in Reload): label LFetch CbErrOld goes to KUnchanged and the
+   Reload ends Running with everything untouched (C13_errold_is_unchanged) - that failure is NOT visible. *)
 Theorem C13_visible : forall sl validated mux_ok s l s' i,
   holder s = Some (ByReload i) -> holder s' = None ->
   step sl validated mux_ok s l = Some s' ->
   (reload_failing s l = true /\ fsm_st s' = FError) \/
   ((l = LUnchanged \/ l = LFinish) /\ (fsm_st s' = FRunning \/ fsm_st s' = FError)).
 Proof. exact visible_step. Qed.
+
+Theorem C13_errold_is_unchanged : forall sl validated mux_ok s i s',
+  kpc s = KFetch -> holder s = Some (ByReload i) ->
+  step sl validated mux_ok s (LFetch CbErrOld) = Some s' ->
+  kpc s' = KUnchanged /\ servers_untouched s s' /\ reload_failing s (LFetch CbErrOld) = false.
+Proof. exact errold_enters. Qed.
 
 (* Run()/Stop() still terminate: in EVERY reachable state - no hypothesis on the environment: after callback
    errors, nil results, failed Shutdowns, foreign binders and unbindable addresses at any position - once
@@ -115,6 +125,7 @@ Print Assumptions C13_unchanged_enters.
 Print Assumptions C13_changed.
 Print Assumptions C13_changed_takes_new.
 Print Assumptions C13_visible.
+Print Assumptions C13_errold_is_unchanged.
 Print Assumptions C13_terminates.
 
 (* ---- non-vacuity ---- *)
